@@ -64,7 +64,9 @@ def c09(ctx):
     codepage.run(ctx)
     ctx.assume(EXT_ASSUME)
     return ctx.finish(explanation="panic-edge inventory over MIR of msi and msi_ffi, reachability from every exported function; "
-                      "each site discharged by a guard rule, justified, or reported")
+                      "each site discharged by a guard rule, justified, or reported; sized allocations bounded (ALLOC-BOUND); every loop cycle consumes from a finite "
+                      "source (LOOP-PROGRESS); the premises of the code page justifications re-checked (GATE-ASCII, REPL); the recorded capacity panics confined (CAP-GUARD). "
+                      "Stack depth, allocation failure below 4 GiB and the internals of external crates are not decided")
 
 
 @prop("C04")
